@@ -1098,7 +1098,9 @@ theorem rejectCurrent_extra (e4 : Engine) (id : Nat) (resolution : Resolution) (
   generalize ({ e4r with current := none } : Engine).completeFailure id x.name = r at h5
   obtain ⟨e5, r5⟩ := r
   simp only []
-  split <;> exact h5
+  split
+  · exact h5
+  · split <;> exact h5
 
 theorem prepareCurrent_extra (e3 : Engine) (id : Nat) (o : Op) (h : Extra false [] e3.view)
     (hc : e3.current = some id)
